@@ -174,7 +174,8 @@ def nd_fits(code, v):
     if code == 0:
         return True
     if code == 5:
-        return abs(v) <= 8 * 2 ** 24
+        import numpy
+        return float(numpy.float32(v / 8)) * 8 == v
     lo, hi = ND_RANGE[code]
     sc = 8 if code == 6 else 1
     q = abs(v) // sc * (1 if v >= 0 else -1)
@@ -209,6 +210,8 @@ def gen_px(kind, seed, i, j):
         return (base * 131) % 200001 - 100000
     if kind == 6:
         return 8 * (base % 50)
+    if kind == 7:
+        return (2 ** 24 + base % 97) * (1 + base % 5) - (base % 3) * 2 ** 26
     return 1 + seed % 255 if base % 3 == 0 else 0
 
 
@@ -313,6 +316,8 @@ def feature_ops(np, rng, feats, a, b, int_first=(), partial_trace=False):
         elif name in ("vtmp", "qpi_amp", "qpi_oah", "qpi_pha"):
             shape = list(VTMP_SHAPE if name == "vtmp" else QPI_SHAPE)
             isz = {"vtmp": 8, "qpi_oah": 1}.get(name, rng.choice([4, 8]))
+            if data.kind == 7:
+                isz = 8
             if b - a == 1 and rng.random() < 0.6:
                 dshape = shape       # shape == data.shape: one event
             else:
@@ -342,7 +347,8 @@ def make_features(np, rng, n, kinds, special, extra, names=None):
                               "uintmask" in extra] +
                              (["intscalar"] if "intscalar" in extra else []) +
                              [e for e in extra if e.startswith("tr:")] +
-                             (["lateonly"] if "lateonly" in extra else []),
+                             (["lateonly"] if "lateonly" in extra else []) +
+                             (["qpi_big"] if "qpi_big" in extra else []),
                              None)
         for name in names:
             if name not in full and name in ("fl1_max", "fl1_npeaks"):
@@ -385,7 +391,10 @@ def make_features(np, rng, n, kinds, special, extra, names=None):
                             VTMP_SHAPE[0] * VTMP_SHAPE[1])
     for name in ("qpi_amp", "qpi_pha"):
         if name in extra:
-            feats[name] = Gen(3, rng.randint(0, 999),
+            # kind 7: values beyond float32's 24 significant bits (rounded
+            # by the float32 dataset; given as float64 arrays)
+            feats[name] = Gen(7 if "qpi_big" in extra else 3,
+                              rng.randint(0, 999),
                               QPI_SHAPE[0] * QPI_SHAPE[1])
     if "qpi_oah" in extra:
         feats["qpi_oah"] = Gen(0, rng.randint(0, 999),
@@ -415,6 +424,8 @@ def gen_case(rng, thorough=False):
              if rng.random() < 0.3]
     extra += [e for e in ("qpi_amp", "qpi_oah", "qpi_pha")
               if rng.random() < 0.15]
+    if rng.random() < 0.4:
+        extra.append("qpi_big")
     extra += ["tr:" + t for t in ("fl2_raw", "fl2_median", "fl3_raw")
               if rng.random() < 0.4]
     if "trace" in kinds and rng.random() < 0.3:
@@ -525,7 +536,17 @@ def gen_case(rng, thorough=False):
             total = parts[-1] if mode == 1 else total + n
         ops.append(["close"])
         first = False
-    return dict(ops=ops)
+    flags = [n for n, v in (("int-first scalar", int_first),
+                            ("over-long log line", overlong),
+                            ("trace int32 beyond int16", trace_wide),
+                            ("trace int32 in range", trace_i32),
+                            ("trace int32 from the start", trace_i32_first),
+                            ("user-shaped int64 first", vtmp_intfirst),
+                            ("qpi beyond float32", "qpi_big" in extra and any(
+                                e in extra for e in ("qpi_amp", "qpi_pha"))),
+                            ("trace group is the first feature",
+                             "lateonly" in extra)) if v]
+    return dict(ops=ops, flags=flags)
 
 
 def rand_side_op(rng, overlong):
@@ -541,8 +562,9 @@ def rand_side_op(rng, overlong):
         nrow = rng.randint(1, 5)
         cols = rng.sample(range(len(COLS)), ncol)
         return ["table", rng.randrange(len(TABLES)), cols,
-                [[rng.randint(-400, 400) for _ in cols] for _ in range(nrow)],
-                rng.choice([0, 0, 1])]
+                [[rng.choice([rng.randint(-400, 400), 8 * rng.randint(-9, 9)])
+                  for _ in cols] for _ in range(nrow)],
+                rng.choice([0, 0, 1, 2])]
     return ["meta", "", rand_meta(rng, False)]
 
 
@@ -570,6 +592,15 @@ def rand_meta(rng, base):
             kvs.append([k, v, form])
     if not base and rng.random() < 0.15:
         kvs.append([4, rng.randint(1, 3), 0])
+    if base and rng.random() < 0.5:
+        # wrong or missing values for the keys rectify_metadata completes
+        # from the stored images / traces (form 9: the key is left out)
+        r = rng.random()
+        for k in (1, 2):
+            kvs.append([k, rng.randint(50, 99), 0] if r < 0.5 else [k, 0, 9])
+    if base and rng.random() < 0.5:
+        kvs.append([3, rng.randint(2, 40), 0] if rng.random() < 0.5
+                   else [3, 0, 9])
     return kvs
 
 
@@ -586,6 +617,9 @@ def meta_dict(kind, kvs):
         meta["fluorescence"].pop("laser count", None)
     for k, v, form in kvs:
         sec, key, typ = META[k]
+        if form == 9:
+            meta.get(sec, {}).pop(key, None)
+            continue
         if typ is int:
             val = str(v) if form == 1 else int(v)
             if form == 2:
@@ -624,6 +658,8 @@ class Expect:
         self.logs = {}
         self.tables = {}
         self.meta = {}
+        self.meta_all = {}   # (section, key) -> value as passed
+        self.tabdt = {}      # table -> column dtypes of a recarray
         self.index = 0
 
     def put(self, store, key, events):
@@ -718,6 +754,12 @@ def run_impl(case, scratch, keep=False):
                             hw.store_feature(name, data[0], shape=shape)
                         else:
                             hw.store_feature(name, data, shape=shape)
+                    elif len(data) and form_rng.random() < 0.25:
+                        # a list (or tuple) of 2-d images
+                        seq = [np.array(x) for x in data]
+                        hw.store_feature(name, seq if form_rng.random() < 0.5
+                                         else tuple(seq))
+                        info["listimg"] = info.get("listimg", 0) + 1
                     else:
                         hw.store_feature(name, data)
                 elif kind == "arr":
@@ -740,6 +782,9 @@ def run_impl(case, scratch, keep=False):
                     good = dshape == tuple(item) or dshape[1:] == tuple(item)
                     if good:
                         events = list(arr.reshape((-1,) + tuple(item)))
+                        if name in ("qpi_amp", "qpi_pha"):
+                            # float32 is the documented type of the feature
+                            events = [e.astype(np.float32) for e in events]
                         if name == "mask":
                             events = [e != 0 for e in events]
                         exp.put(exp.feat, name, events)
@@ -792,19 +837,36 @@ def run_impl(case, scratch, keep=False):
                     name = TABLES[o[1]]
                     tab = {COLS[c]: [r[j] / 8 for r in o[3]]
                            for j, c in enumerate(o[2])}
-                    if name not in exp.tables:
+                    created = name not in exp.tables
+                    if created:
                         exp.tables[name] = tab
+                        exp.tabdt.pop(name, None)
                     if len(o) > 4 and o[4]:
-                        # the same table as a np.recarray (written as-is)
+                        # the same table as a np.recarray (written as-is);
+                        # form 2: int32 / float32 columns keep their dtype
+                        dts = []
+                        for j, v in enumerate(tab.values()):
+                            if o[4] == 2 and all(float(x).is_integer()
+                                                 for x in v):
+                                dts.append(np.int32)
+                            elif o[4] == 2 and j % 2:
+                                dts.append(np.float32)
+                            else:
+                                dts.append(np.float64)
+                        if created:
+                            exp.tabdt[name] = [np.dtype(d) for d in dts]
                         tab = np.rec.fromarrays(
-                            [np.array(v, dtype=np.float64)
-                             for v in tab.values()], names=list(tab.keys()))
+                            [np.array(v, dtype=d) for v, d in
+                             zip(tab.values(), dts)], names=list(tab.keys()))
                     hw.store_table(name, tab)
                 elif kind == "meta":
                     md = meta_dict(o[1], o[2])
                     for k, (sec, key, typ) in enumerate(META):
                         if sec in md and key in md[sec]:
                             exp.meta[k] = typ(md[sec][key])
+                    for sec in md:
+                        for key, val in md[sec].items():
+                            exp.meta_all[(sec, key)] = val
                     hw.store_metadata(md)
             except ValueError:
                 err = 1
@@ -963,6 +1025,11 @@ def oracle(np, dclab, path, exp):
                     d = gen.feature_equal(
                         ds["trace"], {k: np.array(v) for k, v in
                                       events.items()})
+                    if d and d.startswith("trace ") and d.endswith(" differs"):
+                        # one trace differs: the failure is that of this trace
+                        fails.append(("feature:trace:" + d.split()[1],
+                                      "feature trace: " + d))
+                        continue
                 elif name == "contour":
                     d = gen.feature_equal(ds["contour"], events)
                     if d is None:
@@ -1044,6 +1111,12 @@ def oracle(np, dclab, path, exp):
                 fails.append(("table:" + name, "table %s columns %s, written "
                               "%s" % (name, arr.dtype.names, list(tab))))
                 continue
+            if name in exp.tabdt and [arr.dtype[c] for c in tab] != \
+                    exp.tabdt[name]:
+                fails.append(("table:" + name, "table %s: column dtypes %s, "
+                              "the recarray had %s" % (
+                                  name, [str(arr.dtype[c]) for c in tab],
+                                  [str(d) for d in exp.tabdt[name]])))
             for c in tab:
                 if not gen.arr_equal(arr[c], np.array(tab[c], dtype=float)):
                     fails.append(("table:" + name, "table %s column %s "
@@ -1061,6 +1134,39 @@ def oracle(np, dclab, path, exp):
                               "(documented type %s)" % (
                                   sec, key, have, type(have).__name__, v,
                                   typ.__name__)))
+        # every other key given to store_metadata (strings, floats, ints)
+        mine = set((sec, key) for sec, key, _ in META)
+        auto = {("experiment", "event count"), ("imaging", "roi size x"),
+                ("imaging", "roi size y"),
+                ("fluorescence", "samples per event"),
+                ("fluorescence", "channel count"),
+                ("setup", "software version")}
+        for (sec, key), v in exp.meta_all.items():
+            if (sec, key) in mine or (sec, key) in auto:
+                continue
+            have = ds.config[sec].get(key) if sec in ds.config else None
+            same = have is not None and (
+                (isinstance(v, str) and have == v) or
+                (not isinstance(v, str) and not isinstance(have, str)
+                 and float(have) == float(v)))
+            if not same:
+                fails.append(("meta:%s:%s" % (sec, key), "metadata %s:%s read "
+                              "back %r, written %r" % (sec, key, have, v)))
+        from .gen import TRACE_LEN
+        spe = ds.config["fluorescence"].get("samples per event") \
+            if "fluorescence" in ds.config else None
+        want_spe = len(exp.trace[sorted(exp.trace)[0]][0]) if exp.trace \
+            else exp.meta_all.get(("fluorescence", "samples per event"))
+        if spe != want_spe:
+            fails.append(("meta:samples", "fluorescence:samples per event = "
+                          "%r, expected %r (stored traces / value written)" % (
+                              spe, want_spe)))
+        if not ("image" in exp.feat or "mask" in exp.feat):
+            for key in ("roi size x", "roi size y"):
+                if ds.config["imaging"].get(key) != exp.meta_all.get(
+                        ("imaging", key)):
+                    fails.append(("meta:roi", "imaging:%s changed without "
+                                  "image data" % key))
         if n is not None:
             ec = ds.config["experiment"].get("event count")
             if ec != n:
@@ -1123,7 +1229,7 @@ def triggers(case):
                                      else code)
                 if frozen and forced is None and any(
                         not nd_fits(dt, v) for r in rows for v in r):
-                    feats.add(key.split(":")[0])
+                    feats.add(key)
         elif o[0] == "log":
             name = LOGS[o[1]]
             lens = [len(s.encode()) for s in o[2]]
@@ -1151,8 +1257,8 @@ def classify(case, key):
     if key.startswith("log:") and key[4:] in logs:
         return FINDING_LOG
     if key.startswith("feature:") and key[8:] in feats:
-        return FINDING_NDDTYPE if key[8:] in ("trace", "vtmp") \
-            else FINDING_DTYPE
+        return FINDING_NDDTYPE if key[8:].startswith("trace:") or \
+            key[8:] == "vtmp" else FINDING_DTYPE
     return None
 
 
@@ -1289,6 +1395,16 @@ def run(run):
             run.count("op:" + o[0] + (":%s" % MODES[o[1]] if o[0] == "open"
                                       else ""))
         run.count("single-event-form", info.get("single", 0))
+        run.count("list/tuple of images", info.get("listimg", 0))
+        for fl in c.get("flags", []):
+            run.count("class:" + fl)
+        for o in c["ops"]:
+            if o[0] == "meta" and any(len(kv) > 2 and kv[0] in (1, 2, 3)
+                                      for kv in o[2]):
+                run.count("base metadata with wrong/missing roi size or "
+                          "samples per event")
+            if o[0] == "table" and len(o) > 4 and o[4] == 2:
+                run.count("table:recarray int32/float32 columns")
         run.count("argument-forms(0-d, list, str, bytes, 2-d contour)",
                   info.get("forms", 0))
         for o in c["ops"]:
@@ -1300,14 +1416,18 @@ def run(run):
             run.count("feature:" + name)
             run.count("calls-per-feature:%s" % ("1" if k == 1 else "2-4" if
                                                 k < 5 else "5+"))
-        for key, desc in fails:
-            run.oracle_failure(c, desc, classify(c, key))
     model = common.coq_map(run.scratch, "c01", HEADER, "run_flat",
                            [render(c) for c in cases], shard=8)
     for c, m, (flat, fails, info) in zip(cases, model, results):
         run.corr_checked += 1
-        if m != flat:
+        agree = (m == flat)
+        if not agree:
             run.mismatch(c, first_diff(m, flat), None)
+        for key, desc in fails:
+            # a failure is a listed finding only if the trigger concerns
+            # exactly this dataset AND the model (which implements the
+            # conversions of the findings) predicts what was read back
+            run.oracle_failure(c, desc, classify(c, key) if agree else None)
 
 
 def first_diff(m, i):
